@@ -4,7 +4,8 @@
    C18_close_sqrt_real gives the reading over the reals. *)
 From Coq Require Import QArith Qabs Reals Qreals.
 From EsVerif.Common Require Import Base.
-From EsVerif.C18 Require Import Model Spec QLemmas MomProofs MedianProofs ClipProofs InterpProofs CorProofs SpecTol TolProofs SpecStrict ClipStrict ClipReal GsProofs BoxProofs Gen GenProofs.
+From EsVerif.C18 Require Import Model Spec QLemmas MomProofs MedianProofs ClipProofs InterpProofs CorProofs SpecTol TolProofs SpecStrict ClipStrict ClipReal GsProofs BoxProofs Gen GenProofs
+  TolSound ModelKw KwProofs RealReading FrameProofs Exec ExecProofs.
 Open Scope Q_scope.
 
 (* ------------------------------------------------------------------ weighted moments *)
@@ -503,4 +504,210 @@ Proof.
   split; [eexists; split; [vm_compute; reflexivity|vm_compute; reflexivity]|].
   split; [vm_compute; reflexivity|]. split; [vm_compute; reflexivity|].
   eexists; split; [vm_compute; reflexivity|reflexivity].
+Qed.
+
+(* ================================================================== proof-deepening round *)
+
+(* ---- the parametrised checkers are sound at EVERY rounding constant (in particular at eps_f4, used for
+        the calls that compute in float32); at eps9 the parametrised statements are those of Spec.v *)
+Theorem C18_tol_checkers_sound :
+  forall eps,
+  (forall rows d wts im ce sd om oe os,
+      rows <> [] -> ncols rows = d -> rect rows d = true -> weights_fit rows d wts -> im_fits d im ->
+      wmom_check_e eps (M2 rows) wts im ce sd om oe os = true ->
+      forall j, (j < d)%nat ->
+        wmom1_ok_e eps (col j rows) (wcol_of wts j) (im_col im j) ce (nd_get om j) (nd_get oe j) (opt_get os j))
+  /\ (forall x w im ce sd om oe os,
+        length w = length x -> (forall v, im <> IVec v) ->
+        wmom_check_e eps (V1 x) (V1 w) im ce sd om oe os = true ->
+        wmom1_ok_e eps x w (im_col im 0) ce (nd_get om 0) (nd_get oe 0) (opt_get os 0))
+  /\ (forall weighted nsig niter all mean sdev err idx, 0 <= nsig ->
+        sigma_clip_check_e eps weighted nsig niter all mean sdev err idx = true ->
+        sigma_clip_ok_e eps weighted nsig niter all mean sdev err idx)
+  /\ (forall v x u y, interp_check_e eps v x u y = true -> interp_ok v x u y (eps * interp_scale v x u))
+  /\ (forall cov cor, cov2cor_check_e eps cov cor = true -> cov2cor_ok_e eps cov cor)
+  /\ (forall n a b, mat_close_b_e eps n a b = true -> mat_close_e eps n a b).
+Proof. exact tol_checkers_sound. Qed.
+
+Theorem C18_tol_spec_at_eps9 :
+  (forall x w im ce mean err sdev, wmom1_ok_e eps9 x w im ce mean err sdev = wmom1_ok x w im ce mean err sdev)
+  /\ (forall wtd nsig niter all mean sdev err idx,
+        sigma_clip_ok_e eps9 wtd nsig niter all mean sdev err idx = sigma_clip_ok wtd nsig niter all mean sdev err idx)
+  /\ (forall cov cor, cov2cor_ok_e eps9 cov cor = cov2cor_ok cov cor)
+  /\ (forall n a b, mat_close_e eps9 n a b = mat_close n a b).
+Proof. exact ok_e_at_eps9. Qed.
+
+(* ---- meaning of the verdicts of Exec.v_sigma_clip.  Verdict 12 (known class C18.kf_everything_clipped) is
+        given only to an output that IS the code-faithful answer — the last non-empty subset with its own
+        indices and its own statistics — on an input of the class; verdict 0 certifies the clause as stated.
+        Anything else on an input of the class is verdict 3, a violation outside every known class. *)
+Theorem C18_known_class_hides_only_faithful : forall x w niter nsig m s e idx,
+  let all := index_from 0%Z x (sc_weights x w) in
+  let wtd := sc_weighted w in
+  let v := v_sigma_clip x w niter nsig (Ok (m, s, e, idx)) in
+  (v = 12%Z -> 0 <= nsig /\ kf_everything_clipped wtd nsig (Z.to_nat niter) all = true
+               /\ sigma_clip_ok wtd nsig (Z.to_nat niter) all m s e idx)
+  /\ (v = 0%Z -> 0 <= nsig /\ sigma_clip_strict_ok wtd nsig (Z.to_nat niter) all m s e idx)
+  /\ (v = 0%Z \/ v = 12%Z \/ v = skip \/ v = 1%Z \/ v = 3%Z).
+Proof. exact v_sigma_clip_verdicts. Qed.
+
+Theorem C18_known_class_f4 : forall eps x w niter nsig m s e idx,
+  let all := index_from 0%Z x (sc_weights x w) in
+  let wtd := sc_weighted w in
+  let v := v_sigma_clip_e eps x w niter nsig (Ok (m, s, e, idx)) in
+  (v = 12%Z -> 0 <= nsig /\ kf_everything_clipped wtd nsig (Z.to_nat niter) all = true
+               /\ sigma_clip_ok_e eps wtd nsig (Z.to_nat niter) all m s e idx)
+  /\ (v = 0%Z -> 0 <= nsig /\ kf_everything_clipped wtd nsig (Z.to_nat niter) all = false
+                /\ sigma_clip_ok_e eps wtd nsig (Z.to_nat niter) all m s e idx).
+Proof. exact v_sigma_clip_e_verdicts. Qed.
+
+(* ---- get_stats with the documented wmom keyword calcerr= (ModelKw.get_stats_kw) *)
+Theorem C18_get_stats_kw_default : forall arr weights nsig niter,
+  get_stats_kw arr weights nsig niter None = get_stats arr weights nsig niter.
+Proof. exact get_stats_kw_default. Qed.
+
+Theorem C18_get_stats_kw_ignored : forall arr weights nsig niter ce,
+  (nsig <> None \/ niter <> None \/ weights = None) ->
+  get_stats_kw arr weights nsig niter ce = get_stats arr weights nsig niter.
+Proof. exact get_stats_kw_ignored. Qed.
+
+Theorem C18_get_stats_kw_weighted : forall x w ce,
+  length w = length x ->
+  exists g, get_stats_kw (V1 x) (Some (V1 w)) None None ce = Ok g
+    /\ exists m e2 v, g_mean g = S0 m /\ g_err2 g = S0 e2 /\ g_var g = S0 v
+       /\ mom_spec x w None (kw_calcerr ce) true {| m_mean := m; m_err2 := e2; m_var := Some v |}.
+Proof. exact get_stats_kw_weighted_1d_spec. Qed.
+
+Theorem C18_get_stats_kw_weighted_Nd : forall rows d wts ce,
+  rows <> [] -> ncols rows = d -> rect rows d = true -> weights_fit rows d wts ->
+  exists g, get_stats_kw (M2 rows) (Some wts) None None ce = Ok g
+    /\ forall j, (j < d)%nat ->
+         let x := col j rows in
+         let r := wmom1 x (wcol_of wts j) None (kw_calcerr ce) true in
+         is_min x (nd_get (g_min g) j) /\ is_max x (nd_get (g_max g) j)
+         /\ nd_get (g_mean g) j = m_mean r
+         /\ Some (nd_get (g_var g) j) = m_var r
+         /\ nd_get (g_err2 g) j = m_err2 r.
+Proof. exact get_stats_kw_weighted_Nd. Qed.
+
+Theorem C18_get_stats_kw_checker_sound : forall ce x w clip mn mx mean std err idx,
+  gs_col_check_kw ce x w clip mn mx mean std err idx = true -> gs_col_ok_kw ce x w clip mn mx mean std err idx.
+Proof. exact gs_col_check_kw_sound. Qed.
+
+(* ---- the squared statements read over the reals, per routine *)
+Theorem C18_wmom_real : forall x w im ce mean err sdev,
+  (forall a, In a w -> 0 <= a) ->
+  wmom1_ok x w im ce mean err sdev ->
+  let mref := match im with None => wmean_def w x | Some m => m end in
+  let A := absmean_def w x + im_abs im in
+  (if ce then (Rabs (Q2R err - sqrt (Q2R (werr2_calc_def w x mref))) <= Q2R (eps9 * (err + A)))%R
+   else (Rabs (Q2R err - sqrt (Q2R (werr2_default_def w))) <= Q2R (eps9 * err))%R)
+  /\ match sdev with
+     | Some s => (Rabs (Q2R s - sqrt (Q2R (wvar_def w x mref))) <= Q2R (eps9 * (s + A)))%R
+     | None => True
+     end.
+Proof. exact wmom1_ok_real. Qed.
+
+Theorem C18_sigma_clip_stats_real : forall weighted nsig niter all mean sdev err idx,
+  (weighted = true -> forall p, In p all -> 0 <= p_w p) ->
+  sigma_clip_ok weighted nsig niter all mean sdev err idx ->
+  exists sub, map p_idx sub = idx /\ clip_fixpoint weighted nsig niter all sub
+    /\ let '(m, e2, v) := stat_def weighted sub in
+       let A := sc_scale weighted sub in
+       (Rabs (Q2R mean - Q2R m) <= Q2R (eps9 * A))%R
+       /\ (Rabs (Q2R sdev - sqrt (Q2R v)) <= Q2R (eps9 * (sdev + A)))%R
+       /\ (Rabs (Q2R err - sqrt (Q2R e2)) <= Q2R (eps9 * (err + A)))%R.
+Proof. exact sigma_clip_ok_real. Qed.
+
+Theorem C18_cov2cor_real : forall c num den2,
+  0 < den2 -> cor_close c num den2 ->
+  (Rabs (Q2R c - Q2R num / sqrt (Q2R den2)) <= Q2R (eps9 * Qabs c))%R.
+Proof. exact cor_close_real. Qed.
+
+(* ---- history, frames, contracts, rejections *)
+(* the k-th answer of any sequence of calls, started in any state, is the answer of that call alone *)
+Theorem C18_history_independent : forall cs st k c,
+  nth_error cs k = Some c -> nth_error (run_seq st cs) k = Some (run c).
+Proof. exact history_independent. Qed.
+
+Theorem C18_wmom_column_frame : forall rows rows' d wts wts' im im' ce sd j,
+  rows <> [] -> ncols rows = d -> rect rows d = true -> weights_fit rows d wts -> im_fits d im ->
+  rows' <> [] -> ncols rows' = d -> rect rows' d = true -> weights_fit rows' d wts' -> im_fits d im' ->
+  (j < d)%nat ->
+  col j rows = col j rows' -> wcol_of wts j = wcol_of wts' j -> im_col im j = im_col im' j ->
+  exists o o', wmom (M2 rows) wts im ce sd = Ok o /\ wmom (M2 rows') wts' im' ce sd = Ok o'
+               /\ out_col o j = out_col o' j.
+Proof. exact wmom_column_frame. Qed.
+
+Theorem C18_interplin_pointwise : forall v x u o,
+  (2 <= length x)%nat -> (length x <= length v)%nat -> interplin v x u = Ok o ->
+  length o = length u /\ forall k, (k < length u)%nat -> nth k o 0 = interp1 v x (nth k u 0).
+Proof. exact interplin_pointwise. Qed.
+
+(* numpy's contract of a.searchsorted(v) (side='left') holds for the model's implementation on every
+   strictly increasing table: a[i-1] < v <= a[i] *)
+Theorem C18_searchsorted_contract : forall x u,
+  incr x ->
+  let k := cnt x u in
+  searchsorted x u = Z.of_nat k
+  /\ (k <= length x)%nat
+  /\ (forall i, (i < k)%nat -> nth i x 0 < u)
+  /\ (forall i, (k <= i)%nat -> (i < length x)%nat -> u <= nth i x 0).
+Proof. intros x u H. split; [reflexivity|]. exact (searchsorted_contract x u H). Qed.
+
+(* the weighted-median checker decides the specification exactly *)
+Theorem C18_wmedian_check_iff : forall l v, wmedian_check l v = true <-> wmedian_ok l v.
+Proof. exact wmedian_check_iff. Qed.
+
+(* exactly these malformed calls are refused, with these error classes *)
+Theorem C18_rejections :
+  (forall rows w niter nsig, sigma_clip (M2 rows) w niter nsig = Err EValue)
+  /\ (forall x w niter nsig, length w <> length x -> sigma_clip (V1 x) (Some (V1 w)) niter nsig = Err EValue)
+  /\ (forall cor d, rect cor (length cor) = true -> length d <> length cor -> cor2cov cor d = Err EValue)
+  /\ (forall rows w im ce sd, rect rows (ncols rows) = true -> length w <> length rows ->
+         wmom (M2 rows) (V1 w) im ce sd = Err EValue)
+  /\ (forall v x u, u <> [] -> (length x < 2)%nat -> interplin v x u = Err EIndex)
+  /\ (forall x N, (N <= 0)%Z \/ x = [] -> boxcar_average x N = Err EValue).
+Proof.
+  split; [exact sigma_clip_rejects_2d|]. split; [exact sigma_clip_rejects_size|].
+  split; [exact cor2cov_rejects_size|]. split; [exact wmom_rejects_weights_Nd|].
+  split; [exact interplin_short_table|exact boxcar_rejects].
+Qed.
+
+(* the reported subset consists of input points, untouched and in their original order *)
+Theorem C18_sigma_clip_indices_frame : forall x weights niter nsig,
+  0 <= nsig -> length (sc_weights x weights) = length x ->
+  exists r sub,
+    sigma_clip (V1 x) (match weights with Some w => Some (V1 w) | None => None end) niter nsig = Ok r
+    /\ sc_idx r = map p_idx sub
+    /\ Sorted.StronglySorted Z.lt (sc_idx r)
+    /\ forall p, In p sub ->
+         (0 <= p_idx p < Z.of_nat (length x))%Z
+         /\ p_x p = nth (Z.to_nat (p_idx p)) x 0
+         /\ p_w p = nth (Z.to_nat (p_idx p)) (sc_weights x weights) 0.
+Proof. exact sigma_clip_indices_frame. Qed.
+
+(* ---- non-vacuity of the statements of this round *)
+Example C18_nonvacuous_round4 :
+  (* the known class hides only the faithful output: same input, two outputs *)
+  v_sigma_clip [-1; 1] None 4 (1 # 2) (Ok (0, 1, 7071067811865475 # 10000000000000000, [0; 1]%Z)) = 12%Z
+  /\ v_sigma_clip [-1; 1] None 4 (1 # 2) (Ok (0, 1, 7071067811865475 # 10000000000000000, [])) = 3%Z
+  (* calcerr=False through get_stats: err^2 = 1/sum(w) = 1/4 instead of the calcerr value *)
+  /\ (exists g, get_stats_kw (V1 [1; 2; 3]) (Some (V1 [1; 1; 2])) None None (Some false) = Ok g /\ g_err2 g = S0 (1 / 4))
+  /\ (exists g, get_stats_kw (V1 [1; 2; 3]) (Some (V1 [1; 1; 2])) None None None = Ok g /\ g_err2 g <> S0 (1 / 4))
+  (* a float32-precision check that accepts a value the 1e-9 check rejects *)
+  /\ interp_check_e eps_f4 [1; 3; 2] [0; 1; 2] (1 # 2) (2000001 # 1000000) = true
+  /\ interp_check [1; 3; 2] [0; 1; 2] (1 # 2) (2000001 # 1000000) = false
+  (* searchsorted on a table: 1 < 3/2 <= 2 *)
+  /\ incr [0; 1; 2; 5] /\ cnt [0; 1; 2; 5] (3 # 2) = 2%nat
+  (* a sequence of calls *)
+  /\ nth_error (run_seq [] [CBoxcar [1; 2] 1; CWmedian [3; 1; 2; 4] [1; 1; 1; 1]]) 1 = Some (OWmedian (Ok 2))
+  /\ wmedian_check (combine [3; 1; 2; 4] [1; 1; 1; 1]) 2 = true.
+Proof.
+  split; [vm_compute; reflexivity|]. split; [vm_compute; reflexivity|].
+  split; [eexists; split; [vm_compute; reflexivity|vm_compute; reflexivity]|].
+  split; [eexists; split; [vm_compute; reflexivity|vm_compute; discriminate]|].
+  split; [vm_compute; reflexivity|]. split; [vm_compute; reflexivity|].
+  split; [simpl; repeat split; reflexivity|]. split; [vm_compute; reflexivity|].
+  split; [vm_compute; reflexivity|vm_compute; reflexivity].
 Qed.
